@@ -32,9 +32,10 @@ def canon(texts):
     return out
 
 
-def render(conc, hist, root, cms, salt=0, indent=2, nl="\n"):
+def render(conc, hist, root, cms, salt=0, indent=2, nl="\n", include_items=None):
     """one-keyword-per-line layout with the comments placed in their slots.
-    Returns (text, {comment id: text})"""
+    Returns (text, {comment id: text}).  include_items: {item index: file name} - the line of that (one-line) item is
+    moved into an include file and replaced by an INCLUDE directive; the files are returned as third value."""
     acts = concretise.with_root([a for a in hist if a["a"] != "finish"], root)
     toks = conc.tokens(acts)
     lines = []            # [item, depth, [token texts]]
@@ -46,12 +47,16 @@ def render(conc, hist, root, cms, salt=0, indent=2, nl="\n"):
     texts = {c["id"]: comment_text(c, salt) for c in cms}
     out = []
     seen = set()
+    incfiles = {}
     n_items = len(acts) - 1
     for item, depth, words in lines:
         pad = " " * (indent * depth)
         first_line = item not in seen and item <= n_items
         seen.add(item)
         body = pad + " ".join(words)
+        if include_items and item in include_items and first_line and "\n" not in body and "\r" not in body:
+            incfiles[include_items[item]] = body + nl
+            body = pad + "INCLUDE '%s'" % include_items[item]
         if first_line:
             for c in cms:
                 if c["where"] == "above" and c["item"] == item:
@@ -60,6 +65,8 @@ def render(conc, hist, root, cms, salt=0, indent=2, nl="\n"):
                 if c["where"] == "eol" and c["item"] == item:
                     body += " " + texts[c["id"]]
         out.append(body)
+    if include_items is not None:
+        return nl.join(out) + nl, texts, incfiles
     return nl.join(out) + nl, texts
 
 
